@@ -24,3 +24,4 @@ from . import b_midifile         # noqa: F401
 from . import c_files            # noqa: F401
 from . import b_files            # noqa: F401
 from . import c_ports            # noqa: F401
+from . import b_ports            # noqa: F401
